@@ -56,6 +56,9 @@ def gen_cases(rng, tier, scale):
          ('v9', '{{#each l as |n|}}{{> q}}{{/each}}', '[7|][8|]', {'q': '[{{n}}|{{@index}}{{@first}}{{@last}}]'}),
          ('v10', '{{#each o as |n k|}}{{> q}}{{/each}}', '[1|][2|]', {'q': '[{{n}}|{{k}}{{@key}}]'}),
          ('v11', '{{#with l.[0] as |n|}}{{> q}}{{/with}}|{{#each l as |n|}}{{> q this}}{{/each}}', '[7|]|[7|][8|]', {'q': '[{{n}}|{{@index}}]'}),
+         ('v12', '{{#each (id l) as |row|}}{{#with row}}{{../row.n}}{{/with}}{{/each}}', '78', {}),
+         ('v13', '{{#each l as |v i|}}{{#with v}}{{../i}}{{/with}}{{/each}}|{{#each (id l) as |v|}}{{#each ../l}}{{../v.n}}{{/each}}{{/each}}', '01|7788', {}),
+         ('v14', '{{> q3 o}}', 'a1b2', {'q3': '{{#each this as |v k|}}{{#with v}}{{../k}}{{../v.n}}{{/with}}{{/each}}'}),
          ('v8', '{{#each o as |v k|}}{{k}}={{v.n}};{{/each}}{{#each l as |v k|}}{{k}}={{v.n}};{{/each}}', 'a=1;b=2;0=7;1=8;', {})]
     for cid, t, exp, parts in V:
         cases.append(rcase(cid, t, D, pre=['probes'], partials=parts, entry=4, kind='witness', exp=exp, tags=['derived-collection']))
